@@ -1101,6 +1101,11 @@ func init() {
 			errBeforeUse(c, r)
 		})
 	})
+	extra["C04"] = append(extra["C04"], func(c *core.Ctx, r *core.Report) {
+		rule(r, "C04.R7", "a worker leaves its loop only when the pool was stopped or the limit path was taken: every exit of the loop around the iteration runner is decided by the stop flag, follows the limit path, or is decided by a helper that reports so only in those two cases", func() {
+			workerExitRule(c, r)
+		})
+	})
 	extra["C18"] = append(extra["C18"], func(c *core.Ctx, r *core.Report) {
 		rule(r, "C18.R7", "the next schedule takes over its start delay after the current one was started: every timer the runner arms is armed with the start-delay field of a schedule of its list (the Schedule field that does not feed the ticker), read when the timer is armed — not with a time computed from an earlier anchor", func() {
 			rpkg := core.ModPath + "/internal/raterun"
